@@ -4,117 +4,49 @@ import LokiModel.C12.Lemmas
 -/
 namespace LokiModel.C12
 
-theorem dinv_aset {d : DSt} {k : Name} (v : Nat) (h : DInv d) (hk : lower k = k) : DInv (aset k v d) := by
-  intro kv hkv
-  rcases mem_aset hkv with h1 | h1
-  · rw [h1]; exact hk
-  · exact h kv h1
-
-theorem dinv_aerase {d : DSt} (k : Name) (h : DInv d) : DInv (aerase k d) :=
-  fun kv hkv => h kv (mem_aerase hkv)
-
-theorem dinv_foldl {l : List (Name × Nat)} (f : Name → Name) (hf : ∀ kv : Name × Nat, kv ∈ l → lower (f kv.1) = f kv.1) :
-    ∀ d : DSt, DInv d → DInv (l.foldl (fun e kv => aset (f kv.1) kv.2 e) d) := by
-  induction l with
-  | nil => intro d h; exact h
-  | cons x xs ih =>
-    intro d h
-    exact ih (fun kv hkv => hf kv (List.mem_cons_of_mem _ hkv)) _ (dinv_aset _ h (hf x List.mem_cons_self))
-
-theorem draw_lookup {d : DSt} {k : Name} (hd : DInv d)
-    (hK : (k != lower k && (alookup (lower k) d).isSome) = false) : alookup k d = alookup (lower k) d := by
-  by_cases hk : k = lower k
-  · exact congrArg (fun x => alookup x d) hk
-  · simp [hk] at hK
-    rw [hK]
-    cases h : alookup k d with
-    | none => rfl
-    | some v =>
-      have := hd _ (alookup_mem h)
-      exact absurd this.symm hk
-
-theorem draw_erase {d : DSt} {k : Name} {v : Nat} (hd : DInv d) (h : alookup k d = some v) :
-    aerase k d = aerase (lower k) d := by
-  have := hd _ (alookup_mem h)
-  simp only at this
-  rw [this]
-
 structure DRef (kind : DKind) (d : DSt) (op : DOp) : Prop where
   st : dabs (dstep kind d op).1 = (dspecStep kind (dabs d) op).1
   out : (dstep kind d op).2 = (dspecStep kind (dabs d) op).2
-  inv : DInv (dstep kind d op).1
 
-theorem dref_erase (kind : DKind) (d : DSt) (k : Name) (hi : DInv d)
-    (hK : (k != lower k && (alookup (lower k) d).isSome) = false) :
+theorem dref_erase (kind : DKind) (d : DSt) (k : Name) :
     DRef kind d (.del k) ∧ DRef kind d (.pop k) ∧ DRef kind d (.popd k) := by
-  have e := draw_lookup hi hK
+  have hd : dabs d (lower k) = alookup (lower k) d := rfl
   cases hl : alookup (lower k) d with
   | none =>
-    rw [hl] at e
-    refine ⟨?_, ?_, ?_⟩ <;> constructor <;> simp [dstep, dspecStep, e, hl, dabs, hi]
+    rw [hl] at hd
+    refine ⟨?_, ?_, ?_⟩ <;> constructor <;> simp [dstep, dspecStep, hl, hd]
   | some v =>
-    rw [hl] at e
-    have e2 := draw_erase hi e
-    have e3 : dabs (aerase k d) = (dabs d).del (lower k) := by rw [e2, dabs_aerase]
-    have hl' : dabs d (lower k) = some v := hl
+    rw [hl] at hd
     refine ⟨?_, ?_, ?_⟩ <;> constructor <;>
-      simp only [dstep, dspecStep, e, hl', e3] <;> first | rfl | exact dinv_aerase k hi
+      simp only [dstep, dspecStep, hl, hd, dabs_aerase]
 
-theorem dstep_refines (kind : DKind) (d : DSt) (op : DOp) (hi : DInv d) (hK : DKnown kind d op = false) :
-    DRef kind d op := by
+theorem dstep_refines (kind : DKind) (d : DSt) (op : DOp) : DRef kind d op := by
   cases op with
-  | set k v => exact ⟨dabs_aset _ _ _, rfl, dinv_aset v hi (lower_idem k)⟩
-  | get k => exact ⟨rfl, rfl, hi⟩
-  | contains k => exact ⟨rfl, rfl, hi⟩
+  | set k v => exact ⟨dabs_aset _ _ _, rfl⟩
+  | get k => exact ⟨rfl, rfl⟩
+  | contains k => exact ⟨rfl, rfl⟩
   | getitem k =>
+    have hd : dabs d (lower k) = alookup (lower k) d := rfl
     cases hl : alookup (lower k) d with
-    | some v => constructor <;> simp [dstep, dspecStep, dabs, hl, hi]
+    | some v => rw [hl] at hd; constructor <;> simp [dstep, dspecStep, hl, hd]
     | none =>
-      have hl' : dabs d (lower k) = none := hl
+      rw [hl] at hd
       cases kind with
-      | ordered => constructor <;> simp [dstep, dspecStep, hl, hl', hi]
+      | ordered => constructor <;> simp [dstep, dspecStep, hl, hd]
       | dflt =>
-        constructor <;> simp only [dstep, dspecStep, hl, hl']
-        · exact dabs_aset _ _ _
-        · exact dinv_aset 0 hi (lower_idem k)
-  | del k => exact (dref_erase kind d k hi (by simpa [DKnown] using hK)).1
-  | pop k => exact (dref_erase kind d k hi (by simpa [DKnown] using hK)).2.1
-  | popd k => exact (dref_erase kind d k hi (by simpa [DKnown] using hK)).2.2
+        constructor <;> simp only [dstep, dspecStep, hl, hd]
+        exact dabs_aset _ _ _
+  | del k => exact (dref_erase kind d k).1
+  | pop k => exact (dref_erase kind d k).2.1
+  | popd k => exact (dref_erase kind d k).2.2
   | setdefault k v =>
-    have core : ∀ k' : Name, k' = lower k →
-        dabs (match alookup k' d with | some w => (d, Out.val w) | none => (aset k' v d, Out.val v)).1 =
-          (match dabs d (lower k) with | some w => (dabs d, Out.val w) | none => ((dabs d).upd (lower k) v, Out.val v)).1 ∧
-        (match alookup k' d with | some w => (d, Out.val w) | none => (aset k' v d, Out.val v)).2 =
-          (match dabs d (lower k) with | some w => (dabs d, Out.val w) | none => ((dabs d).upd (lower k) v, Out.val v)).2 ∧
-        DInv (match alookup k' d with | some w => (d, Out.val w) | none => (aset k' v d, Out.val v)).1 := by
-      intro k' hk'
-      subst hk'
-      have : dabs d (lower k) = alookup (lower k) d := rfl
-      rw [this]
-      cases alookup (lower k) d with
-      | some w => exact ⟨rfl, rfl, hi⟩
-      | none => exact ⟨dabs_aset _ _ _, rfl, dinv_aset v hi (lower_idem k)⟩
-    cases kind with
-    | ordered =>
-      have := core (lower k) rfl
-      exact ⟨this.1, this.2.1, this.2.2⟩
-    | dflt =>
-      have hk : k = lower k := by simpa [DKnown] using hK
-      have := core k hk
-      exact ⟨this.1, this.2.1, this.2.2⟩
-  | update kvs =>
-    cases kind with
-    | ordered =>
-      refine ⟨dabs_foldl_aset lower kvs d, rfl, dinv_foldl lower (fun kv _ => lower_idem kv.1) d hi⟩
-    | dflt =>
-      have hk : ∀ kv ∈ kvs, id kv.1 = lower kv.1 := by
-        intro kv hkv
-        have : kvs.any (fun kv => kv.1 != lower kv.1) = false := by simpa [DKnown] using hK
-        rw [List.any_eq_false] at this
-        simpa using this kv hkv
-      refine ⟨?_, rfl, ?_⟩
-      · show dabs (merge d kvs) = updAll lower (dabs d) kvs
-        rw [dabs_merge, updAll_congr id lower kvs _ hk]
-      · exact dinv_foldl id (fun kv hkv => by rw [hk kv hkv]; exact lower_idem _) d hi
+    have hd : dabs d (lower k) = alookup (lower k) d := rfl
+    cases hl : alookup (lower k) d with
+    | some w => rw [hl] at hd; constructor <;> simp [dstep, dspecStep, hl, hd]
+    | none =>
+      rw [hl] at hd
+      constructor <;> simp only [dstep, dspecStep, hl, hd]
+      exact dabs_aset _ _ _
+  | update kvs => exact ⟨dabs_foldl_aset lower kvs d, rfl⟩
 
 end LokiModel.C12
